@@ -84,7 +84,9 @@ def harnesses(tier, seed):
             ctx.fail(f["clause"], c, f.get("detail"), f.get("key"))
         ctx.outcome(("scale", n, m, tr, rr, al, strat))
 
-    return [{"name": "selection", "body": M.make_selection_body(grids, L, rmax, images, ALPHAS, PREFIX),
+    return [{"name": "weaver-integral_match-in-every-state", "body": M.make_weaver_body(PREFIX, 3 if quick else 4),
+             "bound_text": "all programs over 12 Weaver operations to depth %d, then integral_match" % (3 if quick else 4)},
+            {"name": "selection", "body": M.make_selection_body(grids, L, rmax, images, ALPHAS, PREFIX),
              "bound_text": "grids on {0..%d}, reference tuples r<=%d, 5 modes" % (L, rmax)},
             {"name": "values", "body": M.make_value_body(vgrids, ALPHAS, PREFIX),
              "bound_text": "all rule pairs x exponents x spanning values x fixed subsets"},
